@@ -230,7 +230,7 @@ func directives(thorough bool) []directive {
 			ds = append(ds, directive{Kind: "updateTargetById", IDs: ids, Arg: tgt})
 		}
 		if ids == "4 5" {
-			for _, tgt := range []string{"!ARGS_GET:c", "!REQUEST_COOKIES:c", "!REQUEST_COOKIES"} {
+			for _, tgt := range []string{"!ARGS_GET:c", "!REQUEST_COOKIES:c", "!REQUEST_COOKIES", "!REQUEST_COOKIES:/^C/"} {
 				ds = append(ds, directive{Kind: "updateTargetById", IDs: ids, Arg: tgt})
 			}
 		}
@@ -287,7 +287,8 @@ func directives(thorough bool) []directive {
 			ds = append(ds, directive{Ctl: true, Kind: "removeTarget", IDs: "6", Arg: tgt, Pos: pos})
 		}
 		// rule 5 reads three collection/key pairs: the removal names exactly one of them
-		for _, tgt := range []string{"ARGS_GET:c", "REQUEST_COOKIES:c", "REQUEST_COOKIES:a", "ARGS_GET", "REQUEST_COOKIES"} {
+		// (a regex key written with a capital letter on a collection whose keys are not case sensitive: the rewritten rule folds it)
+		for _, tgt := range []string{"ARGS_GET:c", "REQUEST_COOKIES:c", "REQUEST_COOKIES:a", "ARGS_GET", "REQUEST_COOKIES", "REQUEST_COOKIES:/^C/", "ARGS_GET:/^C/"} {
 			ds = append(ds, directive{Ctl: true, Kind: "removeTarget", IDs: "5", Arg: tgt, Pos: pos})
 		}
 		for _, tag := range []string{"t1", "t2"} {
